@@ -79,6 +79,7 @@ func C15(ctx *core.Ctx, r *core.Report) {
 	}
 	clo := wv.AnonFuncs[0]
 	escaperNotBypassed(ctx, r)
+	borrowFrom(ctx, r, "C10", C10, "lossy-convert")
 	c15DeferredErrorIsTheResult(ctx, r)
 	c15IdentityrefPrefixByModuleOnly(ctx, r)
 	r.Count("instances:slice-bound-guarded", sliceHighGuarded(ctx, r, scopeFuncs(ctx, "nodeutil", "json_wtr.go", "json_wtr_str.go")))
